@@ -140,8 +140,8 @@ def record_trace(job):
     return {"events": ev, "raw": raw, "seed": seed, "length": length}
 
 
-def validate(ctx, traces, label):
-    """one TLC run over all traces -> {tid (1-based): (pos, mismatch)}"""
+def validate(ctx, traces, label, verdict_only=False):
+    """one TLC run over all traces -> {tid (1-based): (pos, mismatch)}  (verdict_only: no second run naming the traces)"""
     os.makedirs(tlc.WORK, exist_ok=True)
     path = os.path.join(tlc.WORK, f"c09-traces-{uuid.uuid4().hex[:8]}.json")
     with open(path, "w") as f:
@@ -152,7 +152,9 @@ def validate(ctx, traces, label):
         env = dict(R.JVM_ENV, TRACE_FILE=path)
         r = tlc.run(MODULE, tlc.cfg_text(invariants=["Conforms", "TraceLaws"], **base), defs=defs, workers=1, env=env, heap="1g", timeout=1800)
         bad = {}
-        if r.violated:
+        if r.violated and verdict_only:
+            bad = {0: (0, [r.violated])}
+        elif r.violated:
             r2 = tlc.run(MODULE, tlc.cfg_text(action_constraints=["TEmit"], **base), defs=defs, workers=1, env=env, heap="1g", timeout=1800)
             bad = {e["tid"]: (e["pos"], e["mismatch"]) for e in r2.emitted}
             if not bad:
@@ -186,12 +188,35 @@ def judge(ctx, traces, bad):
     ctx.ok(n=sum(len(t["events"]) for t in traces))
 
 
+def negative_control(ctx, traces, bad):
+    """liveness of the binding: ONE logged field of one conforming trace is corrupted - a power predicate the specification requires
+    after that solve is taken out of the logged `holds` - and the same trace specification must reject it"""
+    for tid, t in enumerate(traces, 1):
+        if tid in bad:
+            continue
+        for i, e in enumerate(t["events"]):
+            if e["op"] in ("SolveExt", "SolveBD") and not e["raised"]:
+                name = "PowerEqPerUser" if e["op"] == "SolveExt" or e.get("which") == "bd_nowf" else "PowerLePerUser"
+                if name not in e["holds"]:
+                    continue
+                probe = json.loads(json.dumps({"events": t["events"][:i + 1]}))
+                probe["events"][i]["holds"].remove(name)
+                if not validate(ctx, [probe], "negative control: one corrupted trace", verdict_only=True):
+                    raise tlc.TlcError(f"trace validation did not report a corrupted {e['op']} log ({name} removed from `holds`) (binding not live)")
+                ctx.notes["trace_negative_control"] = f"{name} removed from the logged `holds` of a {e['op']} event (trace {tid}, call {i + 1}): rejected"
+                return
+    if not bad:
+        raise tlc.TlcError("negative control: no conforming trace with a solve was recorded")
+    ctx.notes["trace_negative_control"] = "skipped: no conforming trace with a solve (the run reports violations)"
+
+
 def run(ctx):
     count = 4000 if ctx.tier == "thorough" else 150
     jobs = [(ctx.seed * 1000003 + 17 * i + 5, 12) for i in range(count)]
     traces = pool_map(record_trace, jobs, chunksize=max(1, count // 48))
     bad = validate(ctx, traces, f"{count} recorded random call sequences")
     judge(ctx, traces, bad)
+    negative_control(ctx, traces, bad)
     solves = sum(1 for t in traces for e in t["events"] if e["op"] in ("SolveBD", "SolveExt", "CalcWhitening", "CalcReceiveFilter"))
     ctx.notes["recorded_traces_validated"] = {"traces": count, "events": sum(len(t["events"]) for t in traces), "solves": solves,
                                               "rejected_metric_calls": sum(1 for t in traces for e in t["events"] if e.get("out") == "rejected")}
